@@ -769,8 +769,10 @@ func TestVerifC07Small(t *testing.T) {
 		"(empty gossip queues) and, up to the union size given under bounds, a second time with them created after it (queued for gossip); every pair again with all non-root " +
 		"transactions PRIVATE, the payload held by no node / by the nodes that start with the transaction (convergence is judged on the transaction set). From each pair a breadth-first search over event histories of the two REAL protocol " +
 		"instances to quiescence: deliver(m) for any in-flight m, tick(node), expire(node) and, charged to a budget, drop(m), dup(m) (deliver and leave a copy in flight " +
-		"for arbitrarily late re-delivery; stale(m) is the delivery of such a copy at any later moment), lexpire(node) (expiry while messages are in flight). " +
-		"A pair with a fault budget is searched as nine jobs, one per class (kind, node) of the FIRST fault (nine classes, the three stream-loss classes split again into idle/busy; for a pair whose nodes are mirror images the classes at node 1 are skipped; quick searches stream loss on the one-way pairs only); states are merged by canonical form (App. B.3) within a job, " +
+		"for arbitrarily late re-delivery; stale(m) is the delivery of such a copy at any later moment), lexpire(node) (expiry while messages are in flight), " +
+		"kvfail(m,k) (STORAGE fault: m is delivered while the k-th KV step of the receiving node's handler — every begin / put <shelf> / commit of its write transactions and every read, taken from the step trace of the fault-free delivery through the shared fault.KV wrapper around the bbolt store — returns a database error; the store works again afterwards) " +
+		"and, for pairs whose differing transactions are created after the connection, cfail (the k-th KV step of a creating State.Add fails, for every created transaction and every k; the aggregates are judged at once and the creation is repeated). " +
+		"A pair with a fault budget is searched as one job per class (kind, node) of the FIRST fault (eleven classes, the three stream-loss classes split again into idle/busy; for a pair whose nodes are mirror images the classes at node 1 are skipped; quick searches stream loss on the one-way pairs only); states are merged by canonical form (App. B.3) within a job, " +
 		"so the state and transition counts are sums over jobs. A case is (pair, first-fault class); non-trivial when A != B.")
 	queuedUpTo := 3
 	if r.Thorough() {
@@ -789,6 +791,7 @@ func TestVerifC07Small(t *testing.T) {
 	}
 	r.Bound("queued_variant_up_to_union", queuedUpTo)
 	r.Bound("private_variants", []string{"no-payload", "payload-at-holder"})
+	r.Bound("storage_fault_steps", map[string]bool{"write_transaction_steps": b.KVFaults, "read_steps": b.KVFaults && b.KVReads})
 	if os.Getenv("VERIF_C07_COUNTONLY") != "" {
 		for k := 2; k <= 6; k++ {
 			ps := vc07Pairs(k, k)
@@ -815,13 +818,13 @@ func TestVerifC07Small(t *testing.T) {
 	est := func(twoWay, queued bool, kind string, node int) int {
 		switch {
 		case twoWay && !queued:
-			return map[string]int{"drop": 11800, "dup": 17500, "lexpire": 4300, "disc": 25500, "kvfail": 12000}[kind]
+			return map[string]int{"drop": 11800, "dup": 17500, "lexpire": 4300, "disc": 25500, "kvfail": 5600}[kind]
 		case twoWay:
-			return map[string]int{"drop": 6500, "dup": 7200, "lexpire": 2400, "disc": 14000, "kvfail": 7000}[kind]
+			return map[string]int{"drop": 6500, "dup": 7200, "lexpire": 2400, "disc": 14000, "kvfail": 3000}[kind]
 		case !queued:
-			return map[string]int{"drop": 1440, "dup": 1810 + 570*(node%2), "lexpire": 720, "disc": 2800, "kvfail": 1500}[kind]
+			return map[string]int{"drop": 1440, "dup": 1810 + 570*(node%2), "lexpire": 720, "disc": 2800, "kvfail": 1540 - 870*(node%2)}[kind]
 		}
-		return map[string]int{"drop": 1040 - 200*(node%2), "dup": 1190 + 180*(node%2), "lexpire": 540 - 120*(node%2), "disc": 1900, "kvfail": 1100}[kind]
+		return map[string]int{"drop": 1040 - 200*(node%2), "dup": 1190 + 180*(node%2), "lexpire": 540 - 120*(node%2), "disc": 1900, "kvfail": 950 - 410*(node%2)}[kind]
 	}
 	for i, p := range pairs {
 		bud := budgetFor(p)
@@ -941,6 +944,7 @@ func TestVerifC07Small(t *testing.T) {
 	var ru syscall.Rusage
 	_ = syscall.Getrusage(syscall.RUSAGE_SELF, &ru)
 	r.Extra("cpu_seconds", float64(ru.Utime.Sec+ru.Stime.Sec)+float64(ru.Utime.Usec+ru.Stime.Usec)/1e6)
+	r.Bound("cpu_seconds_of_this_worker", int(ru.Utime.Sec+ru.Stime.Sec))
 	r.States(s.states)
 	r.Transitions(s.trans)
 	r.AddExtra("fair_suffix_steps", s.suffix)
